@@ -44,6 +44,25 @@ def contract(target, **opts):
     return deco
 
 
+LEMMAS = {}
+LEMMA_ORDER = []
+
+
+def lemma(name, **opts):
+    """An L2 lemma over specification functions: class with ``params``,
+    optional ``hypothesis(*params)`` and ``statement(*params)`` (SpecPy, bool),
+    optional native ``witness(*params)`` that demonstrates a violation on the
+    real code for a counter-model, optional ``gen(rng)``."""
+    def deco(cls):
+        cls.lname = name
+        cls.opts = opts
+        cls.target = 'lemma:' + name
+        LEMMAS[name] = cls
+        LEMMA_ORDER.append(name)
+        return cls
+    return deco
+
+
 def spec(fn=None, recursive=False, reads=(), returns='val', unfold=1):
     """Mark a SpecPy function.  ``recursive`` functions become uninterpreted
     symbols (of result sort ``returns``: 'val' | 'bool' | 'outcome') unfolded
